@@ -3,6 +3,22 @@ package main
 // props is the per-property run configuration. Case counts bound the work
 // (never wall clock); TimeoutS is only a safety net that yields exit 2.
 var props = map[string]propCfg{
+	"C01": {
+		Test:     "TestC01",
+		Quick:    tierCfg{Shards: 8, Checks: 5000, TimeoutS: 900},
+		Thorough: tierCfg{Shards: 16, Checks: 300000, TimeoutS: 14400},
+		Rule:     "each case = (destination type spec, document, configuration in {ConfigStd, ConfigDefault} x {-, UseNumber, UseInt64}, optional pre-filled destination). Types are composed with reflect from basic kinds and a ~50-type catalogue (Unmarshaler/TextUnmarshaler on value and pointer receivers, embedded structs and pointers, clashing names, ,string, recursive types, text map keys); most carry a unique field name, so they are new to the process (programs = types first compiled). Documents are type-directed (walk of the type emitting fitting values with perturbations: wrong kind, null, width boundaries, non-integers, duplicate/case-variant/escaped/Unicode-folded keys, ,string payload variants, base64 variants, text produced by the type's own marshaler), or unrelated valid documents, or one structural mutation of either. Oracle: encoding/json on an identically pre-filled destination: same accept/reject, deep-equal value (floats by bits); structurally malformed documents must be rejected; a structurally valid document that only encoding/json rejects is tolerated only if, with the flawed string literals replaced by a marker, encoding/json accepts and sonic's result equals that result (i.e. the flawed literals were skipped, not stored). Under ConfigDefault documents with raw control characters or invalid UTF-8 in literals are outside the statement and only checked for no panic. Non-trivial: document is valid JSON, longer than 2 bytes, destination is not interface{}. Distinct = distinct canonical case encodings.",
+		Assume:   []string{"encoding/json go1.23.5 is the reference; UseInt64 oracle = UseNumber result with integer literals in int64 range converted to int64 and the rest to float64", "destination types encoding/json cannot decode (float/bool map keys) are outside the domain"},
+		EssentialClasses: []string{"new-type", "doc-valid", "doc-malformed", "doc-structural-only", "valid-doc-type-error", "prefilled", "has-embedded", "has-string-opt", "has-map", "cfg:std", "cfg:default+UseInt64", "src:unrelated"},
+	},
+	"C11": {
+		Test:     "TestC11",
+		Quick:    tierCfg{Shards: 8, Checks: 4000, TimeoutS: 900},
+		Thorough: tierCfg{Shards: 16, Checks: 200000, TimeoutS: 14400},
+		Rule:     "each case = C01's (type, document, prefill) stream plus a decoder option set drawn from 2^7 combinations of UseNumber, UseInt64, DisallowUnknownFields, CopyString, ValidateString, CaseSensitive, UseUnicodeErrors; one quarter of the cases use interface{}, map[string]interface{} or []interface{} roots (fast-map shapes). The document is decoded by jitdec, optdec and optdec+fastmap (3 evaluations; switched in-process through verifhook.SetDecoder = the assignment SONIC_USE_OPTDEC/SONIC_USE_FASTMAP make at init). For json.Valid documents with valid UTF-8 all three must agree on error-or-not and on deep-equal values; structurally malformed documents must be rejected by all three. Non-trivial: document valid, longer than 2 bytes, and destination not interface{} or the document has an object. Distinct = distinct canonical case encodings.",
+		Assume:   []string{"agreement is required on valid documents only; a JSON text is UTF-8 (RFC 8259), so documents with invalid UTF-8 in literals are only required not to crash", "hook equals the environment-variable selection (cross-process confirmation in the thorough tier)"},
+		EssentialClasses: []string{"doc-valid", "doc-malformed", "fastmap-shape", "opt:UseNumber", "opt:CaseSensitive", "opt:DisallowUnknown", "valid-doc-both-error"},
+	},
 	"C03": {
 		Test:     "TestC03",
 		Quick:    tierCfg{Shards: 8, Checks: 4000, TimeoutS: 900},
